@@ -71,9 +71,9 @@ def _run(name, f):
         r = [LA.r_nth(f)[0]]
     elif name == "flatseq":
         r = [FL.r_flatseq(f)[0]]
-    elif name in ("copyshape", "flipshape", "conv", "intoiter", "sortkey", "fillshape", "drainlit", "lockstep", "noshift"):
+    elif name in ("copyshape", "flipshape", "conv", "intoiter", "sortkey", "fillshape", "drainlit", "lockstep", "noshift", "rotate"):
         r = [{"copyshape": MI.r_copyshape, "flipshape": MI.r_flipshape, "conv": MI.r_conv, "intoiter": MI.r_intoiter,
-              "sortkey": MI.r_sortkey, "fillshape": MI.r_fill, "drainlit": MI.r_drainlit, "lockstep": MI.r_lockstep, "noshift": MI.r_noshift}[name](f)[0]]
+              "sortkey": MI.r_sortkey, "fillshape": MI.r_fill, "drainlit": MI.r_drainlit, "lockstep": MI.r_lockstep, "noshift": MI.r_noshift, "rotate": MI.r_rotate}[name](f)[0]]
     elif name == "rawbounds":
         r = [RB.r_rawbounds(f)[0]]
     elif name == "witness":
@@ -165,10 +165,10 @@ prop("C04", [sel("encaps", fn=r"^(TooDeeViewMut|RowsMut|ColMut|<impls>)"), sel("
 prop("C05", [sel("rawbounds"), sel("conv", fn=r"IntoIterator|From<toodee"), sel("shape", rules=["R-HIDE", "R-LEAK", "R-LEAK-DRAIN", "R-DRAINSTEP", "R-DRAINORDER", "R-STALE", "R-RESTORE"]), sel("dup"), sel("zstptr")],
      "clauses only: ownership discipline of C05 - (R-RAWBOUNDS) every ptr::copy / ptr::write / ptr::read / from_raw_parts on the array's buffer in insert_row, insert_col, remove_col and the drain's destructor reads inside the extent that was initialised when the window opened and writes inside the reserved capacity, for every shape and index: offsets are polynomials relative to as_mut_ptr(), counted loops are summarised by induction-variable analysis (checked at the first and last iteration), and each bound is discharged by substituting the path facts (index <= dim, len == rows*cols) and checking coefficient signs; (R-HIDE) every bitwise move of elements (ptr::copy/read/write) happens while the Vec length is lowered and every normal path restores it, no restore on an unwind path; (R-DUP) the generic layers only permute; (R-ZSTPTR) progress is never decided by comparing element pointers (zero-sized T); (R-LEAK / R-LEAK-DRAIN) a leaked drain leaves a buffer whose visible part contains no moved-out element; (R-DRAINSTEP) the column drain's iterator methods only single-step the embedded cursor and read out each stepped-over element (a jumping override would forget elements).",
      declined=["the count: that raw moves copy each element to exactly one live slot (placement inside the buffer; DESIGN 2.1) - only that they stay inside it"])
-prop("C06", [sel("rawbounds", fn=INSERT + r"|<rule>"), sel("guard", fn=INSERT), sel("zero", fn=INSERT), sel("shape", fn=INSERT), sel("deleg", fn=r"TooDee::push"), sel("zstptr", fn=INSERT), sel("units", fn=INSERT)],
+prop("C06", [sel("rotate"), sel("rawbounds", fn=INSERT + r"|<rule>"), sel("guard", fn=INSERT), sel("zero", fn=INSERT), sel("shape", fn=INSERT), sel("deleg", fn=r"TooDee::push"), sel("zstptr", fn=INSERT), sel("units", fn=INSERT)],
      "clauses only: insert_row/insert_col/push_* - (R-RAWBOUNDS) the shift / fill pointer arithmetic stays inside the reserved buffer for every (index, rows, cols), including the back-to-front loop of insert_col; (R-GUARD) index <= the dimension of its own unit before anything else; (R-ZERO) the dimension grows only when data was inserted, an empty line into an empty array stays (0,0); (R-UNWIND) any rejected call or panicking iterator leaves a valid (possibly emptied) array; (R-HIDE) raw moves only in the hidden window; (R-DELEG) push_* pass the dimension as index; (R-ZSTPTR) the fill loop counts elements.",
      declined=["placement of the new line and preservation of the other cells (pointer arithmetic of the shift loops, DESIGN 2.1)"])
-prop("C07", [sel("rawbounds", fn=REMOVE + r"|<rule>"), sel("drainlit"), sel("guard", fn=REMOVE), sel("deleg", fn=r"TooDee::pop"), sel("zero", fn=REMOVE), sel("shape", fn=REMOVE), sel("units", fn=REMOVE), sel("encaps", fn=r"^DrainCol")],
+prop("C07", [sel("rotate"), sel("rawbounds", fn=REMOVE + r"|<rule>"), sel("drainlit"), sel("guard", fn=REMOVE), sel("deleg", fn=r"TooDee::pop"), sel("zero", fn=REMOVE), sel("shape", fn=REMOVE), sel("units", fn=REMOVE), sel("encaps", fn=r"^DrainCol")],
      "clauses only: remove_row/remove_col/pop_* - (R-RAWBOUNDS) the column cursor's region and every block move of the destructor's compaction loop stay inside the original buffer (the last move ends exactly at the original length); (R-GUARD) index < dimension of its unit; (R-DELEG) pop_* are guarded on non-emptiness and pass dim-1; (R-ZERO) removing the last line zeroes both dimensions; (R-LEAK, R-LEAK-DRAIN) the returned drain may be leaked at any stage; (R-UNWIND) the drain's destructor restores a product-form array even when an element's Drop panics; DrainCol implements Iterator + DoubleEndedIterator + ExactSizeIterator; (R-DRAINLIT) its cursor is Col { v: buffer[index .. index + len - num_cols + 1], skip: num_cols - 1 } - exactly the removed column, whose iteration order is C09's; (R-DRAINSTEP) every step reads the element out; (R-RESTORE) the destructor's caller-code points run under a live restorer guard.",
      declined=["the compaction arithmetic of DrainCol's destructor and the order of yielded elements (DESIGN 2.1; the latter follows from C09 for the embedded Col cursor)"])
 prop("C08", [sel("nonzero", fn=r"^(Rows|RowsMut) |<rule>"), sel("take", fn=ROWCUR), sel("ovf", fn=ROWCUR), sel("cursor", fn=r"^(Rows|RowsMut)( |:|$)|<rule>")],
